@@ -93,6 +93,12 @@ var entries = []entry{
 	// C08: accounting manager
 	{"radius.AccountingManager.StartSession", "pkg/radius/accounting.go", "AccountingManager", "StartSession"},
 	{"radius.AccountingManager.StopSession", "pkg/radius/accounting.go", "AccountingManager", "StopSession"},
+	// C12: distributed allocator
+	{"allocator.DistributedAllocator.Start", "pkg/allocator/distributed.go", "DistributedAllocator", "Start"},
+	{"allocator.DistributedAllocator.Allocate", "pkg/allocator/distributed.go", "DistributedAllocator", "Allocate"},
+	{"allocator.DistributedAllocator.Release", "pkg/allocator/distributed.go", "DistributedAllocator", "Release"},
+	{"allocator.DistributedAllocator.handleRemoteChange", "pkg/allocator/distributed.go", "DistributedAllocator", "handleRemoteChange"},
+	{"allocator.DistributedAllocator.loadAllocations", "pkg/allocator/distributed.go", "DistributedAllocator", "loadAllocations"},
 	// C13: HA session store and push
 	{"ha.InMemorySessionStore.PutSession", "pkg/ha/store.go", "InMemorySessionStore", "PutSession"},
 	{"ha.InMemorySessionStore.DeleteSession", "pkg/ha/store.go", "InMemorySessionStore", "DeleteSession"},
